@@ -10,10 +10,11 @@ BUILD = ROOT / 'build'
 # aid for trying a seeded change without touching /repo (separate harness copy and target dirs).
 REPO = pathlib.Path(os.environ.get('VERIF_REPO', '/repo'))
 ALT = REPO != pathlib.Path('/repo')
-TARGET = BUILD / ('target-alt' if ALT else 'target')
+ALT_TAG = os.environ.get('VERIF_ALT_TAG', '')      # developer aid: several scratch copies tried in parallel, one build slot each
+TARGET = BUILD / ('target-alt' + ALT_TAG if ALT else 'target')
 DRIVER = BUILD / 'ocaml' / 'driver'
 LIBDRIVE = TARGET / 'debug' / 'libdrive'
-CLI_TARGET = BUILD / ('cli-target-alt' if ALT else 'cli-target')
+CLI_TARGET = BUILD / ('cli-target-alt' + ALT_TAG if ALT else 'cli-target')
 TYPESHARE = CLI_TARGET / 'debug' / 'typeshare'
 EVIDENCE = ROOT / 'evidence'
 REPLAY = EVIDENCE / 'replay'
@@ -186,7 +187,7 @@ def build_harness():
     t0 = time.time()
     hd = ROOT / 'harness' / 'libdrive'
     if ALT:
-        alt = BUILD / 'harness-alt'
+        alt = BUILD / ('harness-alt' + ALT_TAG)
         shutil.rmtree(alt, ignore_errors=True)
         shutil.copytree(hd, alt, ignore=shutil.ignore_patterns('target'))
         for f in (alt / 'Cargo.toml', alt / 'build.rs'):
